@@ -113,6 +113,14 @@ def templates(cfg):
     T("pos.two_windows", lambda p, t: t >> p.mutate(r=rn(p, t), d=p.dense_rank(arrange=[t.g.nulls_first()]), c=t.b.cum_sum(arrange=[t.a.nulls_last(), t.b.nulls_last()], partition_by=t.g)))
     T("pos.window_in_expr", lambda p, t: t >> p.mutate(y=t.b - t.b.min(partition_by=t.g) + rn(p, t)))
     T("pos.arrange_by_window", lambda p, t: t >> p.mutate(y=t.b.sum(partition_by=t.g)) >> p.arrange(p.C.y.nulls_last(), t.a.nulls_last(), t.b.nulls_last()))
+    # grouping survives alias / select / rename / filter and still partitions the window
+    T("grouping.through_alias", lambda p, t: t >> p.group_by(t.g) >> p.alias("z") >> p.mutate(y=p.C.b.sum(), r=p.row_number(arrange=[p.C.a.nulls_last(), p.C.b.nulls_last()])) >> p.ungroup())
+    T("grouping.through_alias_keep", lambda p, t: t >> p.group_by(t.g) >> p.alias("z", keep_col_refs=True) >> p.mutate(y=t.b.sum()) >> p.ungroup())
+    T("grouping.through_verbs", lambda p, t: t >> p.group_by(t.g) >> p.filter(t.a > 0) >> p.rename({"b": "c"}) >> p.select(t.g, t.b, t.a) >> p.mutate(y=t.b.max(), r=p.rank(arrange=[t.a.descending().nulls_last()])) >> p.ungroup())
+    T("grouping.add", lambda p, t: t >> p.group_by(t.g) >> p.group_by(t.a, add=True) >> p.mutate(y=t.b.sum()) >> p.ungroup())
+    T("grouping.replace", lambda p, t: t >> p.group_by(t.g) >> p.group_by(t.a) >> p.mutate(y=t.b.sum()) >> p.ungroup())
+    T("grouping.ungroup_resets", lambda p, t: t >> p.group_by(t.g) >> p.ungroup() >> p.mutate(y=t.b.sum()))
+    T("grouping.explicit_overrides", lambda p, t: t >> p.group_by(t.g) >> p.mutate(y=t.b.sum(partition_by=t.a)) >> p.ungroup())
     # --- table order feeds window functions without arrange= (documented equivalence, C15)
     T("tableorder.grouped_shift", lambda p, t: t >> p.group_by(t.g) >> p.arrange(t.a.nulls_last(), t.b.nulls_last()) >> p.mutate(y=t.b.shift(1)) >> p.ungroup())
     T("tableorder.row_number", lambda p, t: t >> p.arrange(t.a.descending().nulls_last(), t.b.nulls_last()) >> p.mutate(y=p.row_number()))
